@@ -153,6 +153,52 @@ func (se *cfsSess) firstTouch(r *vRand, name string, add func(op, ob, d string))
 	se.readAll(name, add)
 }
 
+// probeNested exercises what depends on the parent pointers of directories that came with a loaded
+// manifest: a rename of an ancestor into its own descendant (must be refused) and ".." below a nested
+// directory (must name the real parent).
+func (se *cfsSess) probeNested(r *vRand, add func(op, ob, d string)) {
+	se.tag("nested-parent-probe")
+	if r.Bool() {
+		a, b := "d", "d/e/"+[]string{"x", "moved", "d"}[r.Intn(3)]
+		err := se.fs.Rename(a, b)
+		ob := "VUnit"
+		if err != nil {
+			ob = c08ErrObs(err)
+		}
+		add("ORename "+gStr(a)+" "+gStr(b), ob, fmt.Sprintf("rename %q %q", a, b))
+	}
+	for _, name := range []string{"d/e/..", "d/e/../e", "d/e/../.."}[r.Intn(3):] {
+		fi, err := se.fs.Stat(name)
+		op := "OStat " + gStr(name)
+		if err != nil {
+			add(op, c08ErrObs(err), op)
+		} else {
+			add(op, c08Info(fi), op)
+		}
+		f, err := se.fs.OpenFile(name, os.O_RDONLY, 0)
+		op = fmt.Sprintf("OOpen %s (FL 0 false false false false false)", gStr(name))
+		if err != nil {
+			add(op, c08ErrObs(err), fmt.Sprintf("open %q", name))
+			continue
+		}
+		se.hs = append(se.hs, f)
+		h := len(se.hs) - 1
+		add(op, fmt.Sprintf("VNat %d", h), fmt.Sprintf("open %q", name))
+		fis, err := f.Readdir(0)
+		op = fmt.Sprintf("OReaddir %d", h)
+		if err != nil {
+			add(op, c08ErrObs(err), op)
+			continue
+		}
+		sort.Slice(fis, func(i, j int) bool { return fis[i].Name() < fis[j].Name() })
+		var es []string
+		for _, fi := range fis {
+			es = append(es, fmt.Sprintf("(%s, (%s, %d))", gStr(fi.Name()), gBool(fi.IsDir()), fi.Size()))
+		}
+		add(op, "VList "+gList(es), op)
+	}
+}
+
 // scriptCreateWrite: open name (create, read-write) and write n random bytes through the new handle.
 func (se *cfsSess) scriptCreateWrite(r *vRand, name string, n int, add func(op, ob, d string)) {
 	f, err := se.fs.OpenFile(name, os.O_RDWR|os.O_CREATE, 0644)
